@@ -160,7 +160,7 @@ func runC04(c *Ctx) {
 	// what is written is ciphertext only if no two seals share key and nonce: the nonce of every seal is freshly read
 	// from the random source (C17-R2's rule)
 	c.Borrow(runC17, "C17-R2", "C04-R1", func(k string) bool {
-		return strings.HasPrefix(k, "nonce-") || strings.HasPrefix(k, "random-fill-covers-whole-buffer")
+		return strings.HasPrefix(k, "nonce-") || strings.HasPrefix(k, "random-fill-covers-whole-buffer") || strings.HasPrefix(k, "random-source-read-only-through-ReadFull")
 	})
 	// what the stored key parameters carry about the passphrase is the digest of the DERIVED key, nothing cheaper
 	c.Borrow(runC17, "C17-R3", "C04-R2", func(k string) bool {
